@@ -72,7 +72,7 @@ def gen_base(rng, tier, index):
             "presize": presize, "extra_ids": [max(ids) + 1 if ids else 1, max(ids) + 40 if ids else 40],
             "parent_polls": rng.random() < 0.8, "parent_writes_late": index % 3 == 0, "seed": rng.randrange(1 << 20),
             "max_reads": 250, "calls": [], "writer_reopens": index % 4 == 2, "linger": rng.choice([0, 0, 0.05, 0.15]),
-            "parent_reads_before_fork": tier == "thorough" and index % 7 == 6}
+            "parent_reads_before_fork": index % 4 == 3}
 
 
 def findings(case, result, res):
